@@ -1,11 +1,13 @@
 use crate::fw::Ctx;
 
 pub mod c01;
+pub mod c03;
 pub mod c13;
 
 pub fn run(ctx: &Ctx) -> bool {
     match ctx.prop {
         "C01" => c01::run(ctx),
+        "C03" => c03::run(ctx),
         "C13" => c13::run(ctx),
         _ => return false,
     }
